@@ -6,6 +6,7 @@ package sctp
 
 import (
 	"fmt"
+	"runtime"
 	"testing"
 	"time"
 )
@@ -156,6 +157,59 @@ func init() {
 					w.heal(100 * time.Second)
 					// a later (successful) write on every stream: delivered normally, no hole left behind
 					for sid := 1; sid <= 6; sid++ {
+						w.stream(0, sid).SetWriteDeadline(time.Time{}) //nolint:errcheck
+						w.writeAsync(0, sid, 100+sid, 51)
+						w.heal(10 * time.Second)
+					}
+					w.heal(30 * time.Second)
+					w.snapAll = true
+					w.quiesce()
+					w.tr.emit(map[string]any{"ev": "expect", "drained": true, "t": w.now()})
+					w.finish(true)
+				})
+			}
+			// 4a'. the write deadline is moved into the future at the very instant it expires, while the write is
+			//      blocked (net.Conn semantics: deadlines may be changed while I/O is pending). Whichever way the
+			//      race goes, a write that reports success has been queued: it is transmitted and delivered, and no
+			//      sequence number is lost (found by the real-time multi-writer family: sendPayloadData returned
+			//      ctx.Err() == nil after the deadline object had been re-armed -- defect F20)
+			if next() {
+				label := fmt.Sprintf("api-rearm-il%v#%d", il, k)
+				vfBubble(t, label, func() {
+					w := vfNewWorld(vfWorldOpt{Label: label, Trace: tr, A: vfEpCfg{InitTSN: 14, Tag: 0xA6, IL: il, BlockWrite: true, Buf: 8192}, B: vfEpCfg{InitTSN: 55, Tag: 0xB6, IL: il, Server: true, Buf: 8192}})
+					if !w.vfConnect() {
+						w.finish(true)
+						return
+					}
+					const ns = 16 // at most 16 unaccepted streams: the peer's accept backlog holds 16, beyond it DATA is discarded unacknowledged by design
+					for sid := 1; sid <= ns; sid++ {
+						w.open(0, sid, 51)
+					}
+					// close the peer's window: nobody reads, the first writes fill it
+					for sid := 1; sid <= 4; sid++ {
+						w.writeAsync(0, sid, 2500, 51)
+						w.pump(6)
+					}
+					for sid := 5; sid <= ns; sid++ {
+						st := w.stream(0, sid)
+						at := time.Now().Add(50 * time.Millisecond)
+						st.SetWriteDeadline(at) //nolint:errcheck
+						w.tr.emit(map[string]any{"ev": "api", "ep": 0, "op": "setwritedeadline", "sid": sid, "at": w.now() + 50, "t": w.now()})
+						for h := 0; h < 8; h++ {
+							go func() {
+								time.Sleep(time.Until(at))
+								for r := 0; r < 4; r++ {
+									st.SetWriteDeadline(time.Now().Add(600 * time.Second)) //nolint:errcheck
+									runtime.Gosched()
+								}
+							}()
+						}
+						w.writeAsync(0, sid, 300+sid, 51)
+						w.tick(60 * time.Millisecond)
+						w.tr.emit(map[string]any{"ev": "note", "what": "write deadline re-armed at its expiry", "sid": sid, "t": w.now()})
+					}
+					w.heal(100 * time.Second)
+					for sid := 1; sid <= ns; sid++ {
 						w.stream(0, sid).SetWriteDeadline(time.Time{}) //nolint:errcheck
 						w.writeAsync(0, sid, 100+sid, 51)
 						w.heal(10 * time.Second)
